@@ -3,6 +3,7 @@ mod gen;
 mod gen2;
 mod gen3;
 mod gen4;
+mod gen5;
 mod ix;
 mod ixtable;
 mod model;
